@@ -25,6 +25,11 @@ level and hash function:
                           root). Hypotheses: no GC pass and no rollback in the history (`HOp.plain`), 32-byte keys and
                           non-empty values, sizes/weights below 2^64 (`PTOK`) and collision-freeness among the nodes of
                           each committed spec trie (`HashInj`, relative — not global — injectivity).
+  C11_crash               crash clause for GC-free histories: storage only accumulates, so after EVERY later prefix of the
+                          history (the storage states a crash can leave behind — commit batches are atomic) every
+                          earlier committed root is still fully resolvable: a trie opened from its (hash, weight)
+                          answers every block with the owner's key and the honest, verifying proof. Collision-freeness
+                          relative to a subtree-closed set S containing the spec tries of all prefixes.
 Not proved: GC safety (that no pass deletes a node of the last committed trie when no two positions ever hold nodes with
 equal hash) — the hypothesis of the partial theorem is therefore "no GC pass", which is stronger than the complement of
 the F2 matcher; see notes/C11.md. GC is checked by the reopen oracle and the correspondence run on every history.
@@ -34,6 +39,7 @@ import Verif.Lemmas.WmptCommit
 import Verif.Lemmas.WmptReopen
 import Verif.Lemmas.WmptSpec
 import Verif.Lemmas.WmptHistoryInv
+import Verif.Lemmas.WmptCrash
 import Verif.Model.WmptToy
 namespace Verif.Props.C11
 open Verif.Wmpt
@@ -122,6 +128,25 @@ theorem C11_answers_are_spec (H : Bytes → Bytes) (hlen : ∀ x, (H x).length =
         verifyPairs H (((specRun ops).proofPairs H b).map PairD.ok) b = .ok ((rootHash H (hrun H ops).t).2, v) := by
   obtain ⟨h1, _, h3, h4⟩ := commit_recoverable_spec hlen ops hall hok hinj hd (hok ops [] (by simp))
   exact ⟨h1, h3, h4⟩
+
+/-- crash clause (GC-free histories): the root committed after the prefix `p` is fully resolvable in the storage state
+    after every later prefix `p ++ q'` of the history -/
+theorem C11_crash (H : Bytes → Bytes) (hlen : ∀ x, (H x).length = 32) (ops : List HOp)
+    (hall : ∀ op ∈ ops, op.plain ∧ op.wf) (hok : ∀ p q, ops = p ++ q → RepOps.PTOK (specRun p))
+    {S : PT → Prop} (hcl : SubClosed S) (hinj : HashInj H S) (hS : ∀ p q, ops = p ++ q → S (specRun p))
+    (p q' r : List HOp) (hsplit : ops = p ++ q' ++ r) (hd : (hrun H p).t.root.dirty = false) :
+    StoredAll H (hrun H (p ++ q')).t.store (specRun p) ∧
+    ∀ b, 1 ≤ b → b ≤ (specRun p).weight →
+      ∃ k v key, ownerSpec (specRun p).entries b = some (k, v) ∧ RepMore.keybytesToHex key = k ∧
+        (blockProof H { root := .hashRef (PT.hash H (specRun p)) (specRun p).weight,
+                        store := (hrun H (p ++ q')).t.store } b).2 =
+          .ok (key, Cbor.encTrie (((specRun p).proofPairs H b).map Cbor.encBase)) ∧
+        verifyPairs H (((specRun p).proofPairs H b).map PairD.ok) b = .ok (PT.hash H (specRun p), v) := by
+  refine ⟨committed_prefix_stored hlen ops hall hok hcl hinj hS p q' r hsplit hd, ?_⟩
+  intro b hb1 hb
+  obtain ⟨k, v, key, h1, h2, _, _, h5, h6⟩ :=
+    crash_prefix_recoverable hlen ops hall hok hcl hinj hS p q' r hsplit hd b hb1 hb
+  exact ⟨k, v, key, h1, h2, h5, h6⟩
 
 set_option maxRecDepth 1000000 in
 /-- non-vacuity: a history with a commit, an update through the collapsed reference, a hash read and a second commit
